@@ -9,6 +9,14 @@ CLAIMED = {
          "Exploration by generated search: tens of thousands (quick) to a million (thorough) segment sequences under fixed and random delimiter configurations, each compared byte-for-byte with an independent segment-level model. Finds adjacency bugs (trim marker x whitespace x comment x delimiter) that examples miss; does not prove absence.",
          "Trusts the in-memory loader and Set plumbing; text segments are sanitised so that they never contain a left delimiter; delimiters are drawn from a family without '-', quotes, whitespace or alphanumerics.",
          "DESIGN.md section 5/C03"),
+ "C02": ("property-based testing + fuzz-style mutation (rapid): generated/mutated/truncated sources x delimiter configurations x referenced-template sets, each parsed in an isolated worker process; oracle = total-function contract (no crash, no hang, no leaked lexer goroutine, usable template xor error naming template and line, structural mistakes rejected)",
+         "Exploration by generated search: five generators (mutated valid programs, token soup, delimiter-biased bytes, valid programs, built-to-be-wrong structural mistakes) plus every prefix of the 46 seed templates; each case runs in a sub-process so that lexer-goroutine panics, stack overflows and hangs are observations. Does not prove totality.",
+         "Hang = 20 s silence twice on inputs < 8 KiB; goroutine leak judged 100 ms after the call; error line checked against 1..1+count(newline); worker protocol and process isolation are trusted.",
+         "DESIGN.md section 5/C02"),
+ "C20": ("property-based testing (rapid): full-grammar generated programs parsed by the engine; differential oracle = multiset of nodes handed to a descending visitor vs an independent reflective traversal of the exported AST, executed in an isolated worker",
+         "Exploration by generated search over all node kinds the grammar produces (label histogram of node kinds in the evidence); every statement/expression node must be visited exactly once, containers at most once, no panic, termination. Does not prove completeness for grammar the generator does not reach.",
+         "The reflective traversal follows exported fields (and embedded structs) of the AST; ListNode, BlockParameterList, the catch wrapper and the catch variable count as containers.",
+         "DESIGN.md section 5/C20"),
 }
 PENDING = {}
 
